@@ -30,7 +30,7 @@ const (
 	sF64  = "(_ FloatingPoint 11 53)"
 )
 
-func bvSort(n int) string { return fmt.Sprintf("(_ BitVec %d)", n) }
+func bvSort(n int) string           { return fmt.Sprintf("(_ BitVec %d)", n) }
 func arrSort(idx, el string) string { return "(Array " + idx + " " + el + ")" }
 
 type LeafKind int
@@ -51,18 +51,18 @@ const (
 )
 
 type Leaf struct {
-	Path   string // field path within the value ("" for scalars), '.' separated; components like #len for composite leaves
-	Sort   string // sort of the leaf in value form
-	Kind   LeafKind
-	GoT    types.Type // Go type of the scalar this leaf (or part) belongs to
-	InArr  bool       // leaf is (part of) an embedded array: Sort is an array sort over ElSort
-	ElSort string
+	Path    string // field path within the value ("" for scalars), '.' separated; components like #len for composite leaves
+	Sort    string // sort of the leaf in value form
+	Kind    LeafKind
+	GoT     types.Type // Go type of the scalar this leaf (or part) belongs to
+	InArr   bool       // leaf is (part of) an embedded array: Sort is an array sort over ElSort
+	ElSort  string
 	ArrPath string // path of the embedded array field (prefix of Path)
-	ArrLen int64
+	ArrLen  int64
 	ElemKey string // element heap key for the array
 	ElemSub string // leaf path inside the element
-	Width  int  // bv width for integer scalars
-	Signed bool
+	Width   int    // bv width for integer scalars
+	Signed  bool
 }
 
 type Layout struct {
@@ -344,8 +344,8 @@ func (h *Heap) names() []string {
 
 func objHeapName(skey, path string) string  { return "H!" + skey + "!" + path }
 func elemHeapName(ekey, path string) string { return "A!" + ekey + "!" + path }
-func globHeapName(g string) string         { return "G!" + g }
-func ghostHeapName(g string) string        { return "Z!" + g }
+func globHeapName(g string) string          { return "G!" + g }
+func ghostHeapName(g string) string         { return "Z!" + g }
 
 // aidOf derives the array id of an array embedded in object ref at field index k.
 func aidOf(ref string, k int) string {
